@@ -48,28 +48,20 @@ impl Scope {
     pub(crate) fn height(&self) -> i32 {
         match self {
             Self::Top => 0,
-            Self::Bind(weak) => {
-                let strong = weak.upgrade().unwrap();
-                strong.height()
-            }
+            // A deallocated bind can never run again: the scope behaves like the top level.
+            Self::Bind(weak) => weak.upgrade().map_or(0, |strong| strong.height()),
         }
     }
     pub(crate) fn is_valid(&self) -> bool {
         match self {
             Self::Top => true,
-            Self::Bind(weak) => {
-                let strong = weak.upgrade().unwrap();
-                strong.is_valid()
-            }
+            Self::Bind(weak) => weak.upgrade().map_or(true, |strong| strong.is_valid()),
         }
     }
     pub(crate) fn is_necessary(&self) -> bool {
         match self {
             Self::Top => true,
-            Self::Bind(weak) => {
-                let strong = weak.upgrade().unwrap();
-                strong.is_necessary()
-            }
+            Self::Bind(weak) => weak.upgrade().map_or(true, |strong| strong.is_necessary()),
         }
     }
     pub(crate) fn add_node(&self, node: NodeRef) {
@@ -79,8 +71,9 @@ impl Scope {
         match self {
             Self::Top => {}
             Self::Bind(bind_weak) => {
-                let bind = bind_weak.upgrade().unwrap();
-                bind.add_node(node.weak());
+                if let Some(bind) = bind_weak.upgrade() {
+                    bind.add_node(node.weak());
+                }
             }
         }
     }
